@@ -51,22 +51,32 @@ def _dump(f):
 def _owner_map(tree):
     """qualname -> (FunctionDef, parent body list, enclosing class or None); only module-level functions and methods of
     module-level classes"""
-    out = {}
+    out, dup = {}, set()
     for st in tree.body:
         if isinstance(st, (ast.FunctionDef, ast.AsyncFunctionDef)):
-            out.setdefault(st.name, (st, tree.body, None))
+            if st.name in out:
+                dup.add(st.name)
+            out[st.name] = (st, tree.body, None)
         elif isinstance(st, ast.ClassDef):
             for g in st.body:
                 if isinstance(g, (ast.FunctionDef, ast.AsyncFunctionDef)):
-                    out.setdefault(f'{st.name}.{g.name}', (g, st.body, st))
+                    q = f'{st.name}.{g.name}'
+                    if q in out:
+                        dup.add(q)
+                    out[q] = (g, st.body, st)
+    for q in dup:           # a name defined twice (property setter pairs, redefinitions): which definition counts is not decided here
+        out.pop(q)
     return out
 
 
-def _helper_table(funcs, names):
-    """name -> (FunctionDef, is_method) for the given qualified names; a bare name defined twice is dropped"""
+def _helper_table(funcs, names, for_cls=None):
+    """name -> (FunctionDef, is_method) for the given qualified names; a bare name defined twice is dropped.  Methods are
+    offered only to functions of their own class (for_cls)."""
     tab, dup = {}, set()
     for q in names:
         f, _, cls = funcs[q]
+        if cls is not None and (for_cls is None or cls.name != for_cls.name):
+            continue
         if f.name in tab:
             dup.add(f.name)
         tab[f.name] = (f, cls is not None)
@@ -138,20 +148,51 @@ def _own(funcs, cls, names):
     out = []
     for n in sorted(names):
         if n.startswith('self.'):
-            if cls is not None and f'{cls.name}.{n[5:]}' in funcs:
+            # (not when another class defines a method of that name: self may be an instance of a subclass that overrides it)
+            others = {q.split('.', 1)[1] for q, v in funcs.items() if v[2] is not None and (cls is None or v[2].name != cls.name)}
+            if cls is not None and f'{cls.name}.{n[5:]}' in funcs and n[5:] not in others:
                 out.append(f'{cls.name}.{n[5:]}')
         elif n in funcs and funcs[n][2] is None:
             out.append(n)
     return out
 
 
+def _sized(tree, cls, side, f):
+    """(sized chains, sequence chains) usable in function f of class cls"""
+    bad = equiv.module_bad_attrs(tree) if tree is not None else None
+    if bad is None:
+        return set(), set()
+    scope = _class_scope(tree, cls, side) if cls is not None else []
+    out = []
+    for fn in (equiv.sized_chains, equiv.sequence_chains):
+        # attributes of self (decided over the class, its bases and every statement of the module that binds an attribute of that
+        # name on any object) and plain locals of f; chains through other objects are not decided
+        ch = {c for c in fn(scope) if c[0] == 'self' and not any(x in bad for x in c[1:])} | {c for c in fn([f]) if len(c) == 1}
+        out.append(ch)
+    return out[0], out[1]
+
+
+def _ctx(tree, seqs, cls):
+    others = set()
+    if tree is not None:
+        for c in ast.walk(tree):
+            if isinstance(c, ast.ClassDef) and (cls is None or c is not cls):
+                others |= {g.name for g in c.body if isinstance(g, (ast.FunctionDef, ast.AsyncFunctionDef))}
+    glob = {x for n in ast.walk(tree) if isinstance(n, ast.Global) for x in n.names} if tree is not None else set()
+    return {'mutable_globals': glob, 'module_bound': equiv.module_bound_names(tree) if tree is not None else (),
+            'all_props': equiv.module_all_properties(tree) if tree is not None else (),
+            'seqs': seqs, 'other_class_methods': others}
+
+
 def canonical_pair(f, cls, rf, cls_r, new_helpers, gone_helpers, cur_consts, ref_consts, cur_props=None, ref_props=None, cur_tree=None, ref_tree=None):
-    s1 = equiv.sized_chains(_class_scope(cur_tree, cls, 'cur') if cls is not None else []) | {c for c in equiv.sized_chains([f]) if c[0] != 'self'}
-    s2 = equiv.sized_chains(_class_scope(ref_tree, cls_r, 'ref') if cls_r is not None else []) | {c for c in equiv.sized_chains([rf]) if c[0] != 'self'}
-    c1 = equiv.canonical(f, new_helpers, cur_consts, s1, cls.name if cls is not None else '', cur_props, equiv.module_dicts(cur_tree) if cur_tree is not None else None)
+    s1, q1 = _sized(cur_tree, cls, 'cur', f)
+    s2, q2 = _sized(ref_tree, cls_r, 'ref', rf)
+    c1 = equiv.canonical(f, new_helpers, cur_consts, s1, cls.name if cls is not None else '', cur_props, equiv.module_dicts(cur_tree) if cur_tree is not None else None,
+                         ctx=_ctx(cur_tree, q1, cls))
     if c1 is None:
         return None, None
-    c2 = equiv.canonical(rf, gone_helpers, ref_consts, s2, cls_r.name if cls_r is not None else '', ref_props, equiv.module_dicts(ref_tree) if ref_tree is not None else None)
+    c2 = equiv.canonical(rf, gone_helpers, ref_consts, s2, cls_r.name if cls_r is not None else '', ref_props, equiv.module_dicts(ref_tree) if ref_tree is not None else None,
+                         ctx=_ctx(ref_tree, q2, cls_r))
     return c1, c2
 
 
@@ -161,8 +202,12 @@ def apply(cur_tree, ref_tree, prepare):
     prepare(ref_tree)
     cur = _owner_map(cur_tree)
     ref = _owner_map(ref_tree)
-    new_helpers = _helper_table(cur, [q for q in cur if q not in ref])
-    gone_helpers = _helper_table(ref, [q for q in ref if q not in cur])
+    new_names = [q for q in cur if q not in ref]
+    gone_names = [q for q in ref if q not in cur]
+    all_new = _helper_table(cur, new_names, None)
+    all_new.update({k: v for c_ in {v[2].name: v[2] for v in cur.values() if v[2] is not None}.values() for k, v in _helper_table(cur, new_names, c_).items()})
+    all_gone = _helper_table(ref, gone_names, None)
+    all_gone.update({k: v for c_ in {v[2].name: v[2] for v in ref.values() if v[2] is not None}.values() for k, v in _helper_table(ref, gone_names, c_).items()})
     gated = []
     cur_consts = equiv.module_constants(cur_tree)
     ref_consts = equiv.module_constants(ref_tree)
@@ -174,15 +219,17 @@ def apply(cur_tree, ref_tree, prepare):
         rf = ref[q][0]
         if _dump(f) == _dump(rf):
             continue
-        if [ast.dump(d) for d in f.decorator_list] != [ast.dump(d) for d in rf.decorator_list]:
+        if [ast.dump(d) for d in f.decorator_list] != [ast.dump(d) for d in rf.decorator_list] or type(f) is not type(rf):
             continue
+        new_helpers = _helper_table(cur, new_names, cls)
+        gone_helpers = _helper_table(ref, gone_names, ref[q][2])
         c1, c2 = canonical_pair(f, cls, rf, ref[q][2], new_helpers, gone_helpers, cur_consts, ref_consts, cur_props, ref_props, cur_tree, ref_tree)
         if c1 is not None and c2 is not None and c1 != c2:
             # a duplicated block replaced by a call to a function that exists in both versions (or the reverse): paste the
             # functions that only one of the two versions of this function calls, each from its own tree
             called_c, called_r = _called(f), _called(rf)
-            only_c = _helper_table(cur, [x for x in _own(cur, cls, called_c - called_r) if x in ref and x != q])
-            only_r = _helper_table(ref, [x for x in _own(ref, ref[q][2], called_r - called_c) if x in cur and x != q])
+            only_c = _helper_table(cur, [x for x in _own(cur, cls, called_c - called_r) if x in ref and x != q], cls)
+            only_r = _helper_table(ref, [x for x in _own(ref, ref[q][2], called_r - called_c) if x in cur and x != q], ref[q][2])
             if only_c or only_r:
                 h1 = dict(new_helpers)
                 h1.update(only_c)
@@ -204,8 +251,8 @@ def apply(cur_tree, ref_tree, prepare):
         gated.append(q)
     # helpers of the current tree that were created by a refactoring and are no longer referenced once their callers are
     # read in the reference spelling are dropped with it; helpers the refactoring removed are not needed either
-    if gated and new_helpers:
-        for name, (h, is_method) in new_helpers.items():
+    if gated and all_new:
+        for name, (h, is_method) in all_new.items():
             still = False
             for n in ast.walk(cur_tree):
                 if n is h:
@@ -222,8 +269,8 @@ def apply(cur_tree, ref_tree, prepare):
                         gated.append(f'-{q}')
     # functions the refactoring inlined away (present in the reference only) are restored when their former callers are
     # now read in the reference spelling and call them again
-    if gated and gone_helpers:
-        for name, (h, is_method) in gone_helpers.items():
+    if gated and all_gone:
+        for name, (h, is_method) in all_gone.items():
             used = any((isinstance(n, ast.Name) and n.id == name) or (isinstance(n, ast.Attribute) and n.attr == name) for n in ast.walk(cur_tree))
             if used:
                 for q, (f, body_list, cls) in ref.items():
